@@ -37,7 +37,8 @@ def close(a, b, tol, scale=1.0):
 # ------------------------------------------------------------------------------------------------
 KINDS = {
     "distance": ("distance", ["group1", "group2"]),
-    "distanceVec": ("distanceVec", ["group1", "group2"]),      # modelled as three distanceZ variables (axes x, y, z)
+    "distanceVec": ("distanceVec", ["group1", "group2"]),
+    "distancePairs": ("distancePairs", ["group1", "group2"]),   # modelled as one `distance` variable per (atom of group1, atom of group2)      # modelled as three distanceZ variables (axes x, y, z)
     "distanceZ": ("distanceZ", ["main", "ref"]),
     "distanceZ2": ("distanceZ", ["main", "ref", "ref2"]),
     "distanceXY": ("distanceXY", ["main", "ref"]),
@@ -146,7 +147,7 @@ def config_text(case):
         kw = {"harmonic": "harmonic", "walls": "harmonicWalls", "linear": "linear"}[b["type"]]
         L += [kw + " {", "  name b%d" % j, "  colvars " + " ".join("v%d" % t[0] for t in b["terms"])]
         if b["type"] in ("harmonic", "linear"):
-            L.append("  centers " + " ".join(("%r" % t[1]) if not isinstance(t[1], (tuple, list)) else v3(t[1]) for t in b["terms"]))
+            L.append("  centers " + " ".join(("%r" % t[1]) if not isinstance(t[1], (tuple, list)) else "(" + ", ".join("%r" % x for x in t[1]) + ")" for t in b["terms"]))
             L.append("  forceConstant %r" % b["k"])
         else:
             if b["hl"]:
@@ -248,7 +249,25 @@ def model_line(case, res=None):
     # main = group2 and ref = group1 (the same centres of mass, the same minimum-image difference)
     mvars, vmap = [], []
     for v in case["vars"]:
-        if v.get("vec"):
+        if v.get("vec") == "pairs":
+            # distancePairs: element i1*n2 + i2 is the (minimum-image) distance between atom i1 of group1 and atom i2 of
+            # group2, and apply_force pushes exactly those two atoms: one `distance` variable on two one-atom groups each
+            c = v["cvcs"][0]
+            idx = []
+            for a1 in c["groups"][0]["ids"]:
+                for a2 in c["groups"][1]["ids"]:
+                    def one(g, a):
+                        # one atom of a group that may be centred: the shift and the fit term are those of the whole group
+                        if g.get("center") is None:
+                            return {"ids": [a]}
+                        return {"ids": [a], "center": g["center"], "fit": g["fit"] if g.get("fit") is not None else list(g["ids"]),
+                                "fitgrad": g.get("fitgrad", True)}
+                    c2 = {"kind": "distance", "coeff": c.get("coeff", 1.0), "exp": 1, "params": {"pbc": c["params"]["pbc"]},
+                          "groups": [one(c["groups"][0], a1), one(c["groups"][1], a2)]}
+                    idx.append(len(mvars))
+                    mvars.append({"width": v["width"], "cvcs": [c2]})
+            vmap.append(idx)
+        elif v.get("vec"):
             c = v["cvcs"][0]
             idx = []
             for kk, ax in enumerate(((1.0, 0.0, 0.0), (0.0, 1.0, 0.0), (0.0, 0.0, 1.0))):
@@ -395,6 +414,13 @@ def cvc_guard(case, c):
         if k == "distanceVec":
             d, m = mic(case, vsub(cs[1], cs[0]), pbc)
             return m > MARG
+        if k == "distancePairs":
+            for p1 in gpositions(case, gs[0]):
+                for p2 in gpositions(case, gs[1]):
+                    d, m = mic(case, vsub(p2, p1), pbc)
+                    if vnorm(d) < 0.3 or m <= MARG:
+                        return False
+            return True
         if k in ("distanceZ2", "distanceXY2"):
             a12, m1 = mic(case, vsub(cs[2], cs[1]), pbc)
             if k == "distanceZ2":
@@ -534,7 +560,7 @@ def gen_cvc(r, kind, n_atoms, opts):
     c = {"kind": kind, "params": {}, "groups": []}
     pr = c["params"]
     ng = len(KINDS[kind][1])
-    if kind in ("distance", "distanceVec", "distanceZ", "distanceZ2", "distanceXY", "distanceXY2", "distanceInv", "angle", "dihedral", "dipoleAngle"):
+    if kind in ("distance", "distanceVec", "distancePairs", "distanceZ", "distanceZ2", "distanceXY", "distanceXY2", "distanceInv", "angle", "dihedral", "dipoleAngle"):
         pr["pbc"] = r.random() < 0.7
     if kind in ("distanceZ", "distanceXY", "inertiaZ"):
         pr["axis"] = unit_axis(r.choice(AXES))
@@ -544,7 +570,7 @@ def gen_cvc(r, kind, n_atoms, opts):
         pr["r0"] = r.choice([1.0, 2.0, 1.5, 2.5, 4.0]); pr["en2"] = r.choice([1, 2, 3]); pr["ed2"] = pr["en2"] + r.choice([1, 2, 3])
         if kind == "coordNum":
             pr["g2c"] = r.random() < 0.25
-    disjoint = kind in ("distanceInv", "coordNum")
+    disjoint = kind in ("distanceInv", "coordNum", "distancePairs")
     for gi in range(ng):
         atom_based_first = kind in ATOM_BASED and (gi == 0 or kind in ("distanceInv", "coordNum"))
         size = None
@@ -553,6 +579,8 @@ def gen_cvc(r, kind, n_atoms, opts):
         allow_dummy = not atom_based_first or (kind == "coordNum" and gi == 1)
         # gyration/inertia centre their group themselves; explicit fitting options change their meaning
         allow_center = kind not in ("gyration", "inertia", "inertiaZ")
+        if kind == "distancePairs":
+            size, allow_dummy, allow_center = r.choice([1, 2, 2]), False, True
         g = gen_group(r, n_atoms, pool, opts, size=size, allow_dummy=allow_dummy, allow_center=allow_center)
         if kind in ("gyration", "inertia", "inertiaZ"):
             # gyration::init: enable(f_ag_center) with the origin as reference, fit gradients not enabled
@@ -616,9 +644,26 @@ def gen_case(r, kinds, opts):
     for attempt in range(60):
         case["atoms"] = [(r.choice(MASSES), V.dyadic(r, -2, 2, bits=3),
                           tuple(V.dyadic(r, -4, 4, bits=6) for _ in range(3))) for _ in range(n_atoms)]
+        if case["cell"] and r.random() < 0.7:
+            # move some atoms to other periodic images, so that centre / pair differences really wrap (|d_k| > L_k/2
+            # before imaging); the guards below keep every minimum-image difference away from the cuts
+            at = []
+            for (m_, q_, p_) in case["atoms"]:
+                if r.random() < 0.4:
+                    p_ = tuple(x + r.choice([-1, 0, 0, 1]) * L for x, L in zip(p_, case["cell"]))
+                at.append((m_, q_, p_))
+            case["atoms"] = at
         vars_ = []
         ok = True
         for vi in range(nv):
+            if opts.get("pairs") and r.random() < opts["pairs"]:
+                c = gen_cvc(r, "distancePairs", n_atoms, opts)
+                if c is None or not cvc_guard(case, c):
+                    ok = False
+                    break
+                c["exp"] = 1
+                vars_.append({"width": r.choice([1.0, 1.0, 0.5, 2.0]), "cvcs": [c], "vec": "pairs"})
+                continue
             if opts.get("vec") and r.random() < opts["vec"]:
                 c = gen_cvc(r, "distanceVec", n_atoms, opts)
                 if c is None or not cvc_guard(case, c):
@@ -650,7 +695,10 @@ def gen_case(r, kinds, opts):
         bt = r.choice(opts["biases"])
         vis = [r.randrange(nv)] if (nv == 1 or r.random() < 0.5) else list(range(nv))
         if any(case["vars"][i].get("vec") for i in vis):
-            bt = "harmonic"      # walls are for scalars; keep vectors under harmonic restraints
+            # walls are for scalars; distancePairs also under linear (sum of the elements), distanceVec under harmonic
+            bt = r.choice(["harmonic", "linear"]) if all(case["vars"][i].get("vec") in ("pairs", None) for i in vis) and bt != "walls" else "harmonic"
+            if bt == "linear" and any(var_period(case["vars"][i]) for i in vis):
+                bt = "harmonic"
         if bt == "linear" and any(var_period(case["vars"][i]) for i in vis):
             bt = "harmonic"      # linear biases cannot be applied to periodic variables
         if bt == "harmonic":
@@ -673,10 +721,19 @@ def gen_case(r, kinds, opts):
                             break
                     out.append(cc)
                 return tuple(out)
-            b = {"type": "harmonic", "k": r.choice([1.0, 2.0, 0.5, 10.0, 3.0]),
-                 "terms": [(i, vec_centre(case["vars"][i]) if case["vars"][i].get("vec") else V.dyadic(r, -2, 6, bits=3)) for i in vis]}
+            def centre_of(v):
+                if v.get("vec") == "pairs":
+                    c = v["cvcs"][0]
+                    return tuple(V.dyadic(r, 0, 6, bits=3) for _ in range(len(c["groups"][0]["ids"]) * len(c["groups"][1]["ids"])))
+                return vec_centre(v) if v.get("vec") else V.dyadic(r, -2, 6, bits=3)
+            b = {"type": "harmonic", "k": r.choice([1.0, 2.0, 0.5, 10.0, 3.0]), "terms": [(i, centre_of(case["vars"][i])) for i in vis]}
         elif bt == "linear":
-            b = {"type": "linear", "k": r.choice([1.0, -2.0, 0.5, 3.0]), "terms": [(i, V.dyadic(r, -2, 6, bits=3)) for i in vis]}
+            def lcentre_of(v):
+                if v.get("vec") == "pairs":
+                    c = v["cvcs"][0]
+                    return tuple(V.dyadic(r, 0, 6, bits=3) for _ in range(len(c["groups"][0]["ids"]) * len(c["groups"][1]["ids"])))
+                return V.dyadic(r, -2, 6, bits=3)
+            b = {"type": "linear", "k": r.choice([1.0, -2.0, 0.5, 3.0]), "terms": [(i, lcentre_of(case["vars"][i])) for i in vis]}
         else:
             m = r.random()
             hl, hu = (True, True) if m < 0.5 else ((True, False) if m < 0.75 else (False, True))
@@ -857,7 +914,12 @@ def fd_check(case, res):
 
 def walls_ambiguous(case, base, res=None):
     """a variable within 0.05 of a wall position (or of the ABMD reference): the energy has a kink there"""
-    for b in case.get("biases", []):
+    for j, b in enumerate(case.get("biases", [])):
+        if b["type"] == "meta":
+            # the hill is set to zero beyond exponent 23 (a jump of W*1e-5 in the energy): decided only well inside
+            e = base.get("bias", {}).get("b%d" % j)
+            if e is None or not (abs(e) > 1e-4 * abs(b["W"])):
+                return True
         if b["type"] == "abmd" and res is not None:
             i = b["terms"][0][0]
             pre = [st["cv"] for st in res["steps"][:len(case.get("presteps", []))]]
@@ -895,7 +957,7 @@ def shrink_fd(vsim, case, run_one):
         for c in v["cvcs"]:
             c2 = copy.deepcopy(c)
             small = {"atoms": case["atoms"], "cell": case.get("cell"), "vars": [{"width": v["width"], "cvcs": [c2], "vec": v.get("vec", False)}],
-                     "biases": [{"type": "harmonic", "k": 1.0, "terms": [(0, (0.5, 0.5, 0.5) if v.get("vec") else 0.5)]}]}
+                     "biases": [{"type": "harmonic", "k": 1.0, "terms": [(0, ((0.5,) * (len(c2["groups"][0]["ids"]) * len(c2["groups"][1]["ids"])) if v.get("vec") == "pairs" else (0.5, 0.5, 0.5)) if v.get("vec") else 0.5)]}]}
             small["touched"] = touched_atoms(small)
             cands.append(small)
             c3 = copy.deepcopy(c2); c3["coeff"] = 1.0; c3["exp"] = 1
@@ -935,8 +997,16 @@ def gen_unmodelled(r, n):
              "eulerPhi", "eulerTheta", "eulerPsi", "distanceVec", "distanceDir", "cartesian", "distancePairs",
              "rot_gyration", "eigenvector_nofit", "rot_distanceVec", "center_distanceVec", "groupCoord", "hBond",
              "meta_nogrid", "opes_frozen", "abmd", "histogramRestraint", "distanceZ_periodic", "dihedral_walls", "mapTotal"]
+    cell_names = ["cell_distanceVec", "cell_distanceDir", "cell_distancePairs", "cell_distancePairs_linear", "cell_histogramRestraint",
+                  "cell_groupCoord", "cell_hBond", "cell_poly_two_biases", "cell_center_distanceVec", "cell_meta_nogrid",
+                  "center_distancePairs", "rot_distancePairs", "distancePairs_linear"]
+    names = names + cell_names
     for i in range(n):
-        name = names[i % len(names)] if i < 2 * len(names) else r.choice(names)
+        name = names[i % len(names)] if i < 3 * len(names) else r.choice(names)
+        full_name = name
+        wrap = name.startswith("cell_")
+        if wrap:
+            name = name[5:]
         na = r.randint(6, 10)
         ids = r.sample(range(na), 4)
         others = [j for j in range(na) if j not in ids]
@@ -989,6 +1059,18 @@ def gen_unmodelled(r, n):
             touched = sorted(set(ids[:2] + oth2))
             conf = ("colvar {\n  name v0\n  distancePairs {\n    group1 {\n      atomNumbers %s\n    }\n    group2 {\n      atomNumbers %s\n    }\n  }\n}\n"
                     "harmonic {\n  colvars v0\n  centers (1.0, 2.0, 3.0, 2.5)\n  forceConstant 2.0\n}" % (ids_str(ids[:2]), ids_str(oth2)))
+        elif name == "distancePairs_linear":
+            touched = sorted(set(ids[:2] + oth2))
+            conf = ("colvar {\n  name v0\n  distancePairs {\n    group1 {\n      atomNumbers %s\n    }\n    group2 {\n      atomNumbers %s\n    }\n  }\n}\n"
+                    "linear {\n  colvars v0\n  centers (1.0, 2.0, 3.0, 2.5)\n  forceConstant 2.0\n}" % (ids_str(ids[:2]), ids_str(oth2)))
+        elif name == "center_distancePairs":
+            touched = sorted(set(ids[:2] + oth2))
+            conf = ("colvar {\n  name v0\n  distancePairs {\n    group1 {\n      atomNumbers %s\n      centerToReference on\n      refPositions %s\n    }\n    group2 {\n      atomNumbers %s\n    }\n  }\n}\n"
+                    "harmonic {\n  colvars v0\n  centers (1.0, 2.0, 3.0, 2.5)\n  forceConstant 2.0\n}" % (ids_str(ids[:2]), refpos_str(r, 2), ids_str(oth2)))
+        elif name == "rot_distancePairs":
+            touched = sorted(set(ids[:3] + oth2))
+            conf = ("colvar {\n  name v0\n  distancePairs {\n    group1 {\n      atomNumbers %s\n      centerToReference on\n      rotateToReference on\n      refPositions %s\n    }\n    group2 {\n      atomNumbers %s\n    }\n  }\n}\n"
+                    "harmonic {\n  colvars v0\n  centers (1.0, 2.0, 3.0, 2.5, 1.5, 2.0)\n  forceConstant 2.0\n}" % (ids_str(ids[:3]), refpos_str(r, 3), ids_str(oth2)))
         elif name == "rot_gyration":
             touched = sorted(ids)
             conf = "colvar {\n  name v0\n  inertiaZ {\n    atoms {\n      atomNumbers %s\n      %s\n    }\n    axis (0.0, 0.0, 1.0)\n  }\n}\n%s" % (ids_str(ids), fitopts, harm)
@@ -1039,7 +1121,37 @@ def gen_unmodelled(r, n):
             conf = ("colvar {\n  name v0\n  distance {\n    componentExp 2\n    componentCoeff 0.5\n    group1 {\n      atomNumbers %s\n    }\n    group2 {\n      atomNumbers %s\n    }\n  }\n"
                     "  distanceZ {\n    componentCoeff -1.5\n    main {\n      atomNumbers %s\n    }\n    ref {\n      atomNumbers %s\n    }\n  }\n}\n%s\nlinear {\n  colvars v0\n  centers 0.0\n  forceConstant -0.5\n}"
                     % (ids_str(ids[:2]), ids_str(oth2), ids_str(ids[2:]), ids_str(oth2), harm))
-        c = raw_case(r, name, na, conf, touched, cell=cell)
+        c = raw_case(r, full_name, na, conf, touched, cell=cell)
+        if wrap:
+            # a periodic cell in which some of the named atoms sit in other images: centre / pair differences wrap
+            c["cell"] = tuple(r.choice([8.0, 10.0, 12.0]) for _ in range(3))
+            base_at = list(c["atoms"])
+            for attempt in range(120):
+                at = list(base_at)
+                moved = False
+                for a in touched:
+                    if r.random() < 0.5 or (not moved and a == touched[-1]):
+                        m_, q_, p_ = at[a]
+                        sh = [r.choice([-1, 0, 1]) for _ in range(3)]
+                        if not any(sh):
+                            sh[r.randrange(3)] = r.choice([-1, 1])
+                        at[a] = (m_, q_, tuple(x + n_ * L + (V.dyadic(r, -0.5, 0.5, bits=6) if attempt else 0.0) for x, n_, L in zip(p_, sh, c["cell"])))
+                        moved = True
+                # no pair of named atoms exactly on (or within 0.03 cell edges of) a cut of the minimum image: dyadic
+                # coordinates do hit L/2 exactly, where the distance has a cusp that central differences do not see
+                okc = True
+                for ia in touched:
+                    for ib in touched:
+                        if ia < ib:
+                            for kk in range(3):
+                                y = (at[ib][2][kk] - at[ia][2][kk]) / c["cell"][kk] + 0.5
+                                if min(y - math.floor(y), math.floor(y) + 1 - y) < 0.015:
+                                    okc = False
+                if okc:
+                    break
+            c["atoms"] = at
+            if not okc:
+                continue        # no cut-free placement found: drop the case rather than risk an undetectable cusp
         if pre == "shift2":
             # hills are deposited when step_absolute % 1000 == 0 and step_relative > 0: start at step 999, so that the
             # second pre-step (at a slightly different configuration) deposits the only hill / kernel
@@ -1108,7 +1220,11 @@ def compare_case(run, case, res, mline, mout):
     mi = 0
     for i, v in enumerate(case["vars"]):
         x = base["cv"].get("v%d" % i)
-        n = 3 if v.get("vec") else 1
+        n = 1
+        if v.get("vec") == "pairs":
+            n = len(v["cvcs"][0]["groups"][0]["ids"]) * len(v["cvcs"][0]["groups"][1]["ids"])
+        elif v.get("vec"):
+            n = 3
         if not x or len(x) != n or not all(close(a, b, TOL_TIE) for a, b in zip(x, mv[mi:mi + n])):
             bad.append("value v%d impl=%r model=%r" % (i, x, mv[mi:mi + n]))
         mi += n
@@ -1150,7 +1266,7 @@ def check(run):
     model, exes = st
     vsim = exes["vsim"]
 
-    opts = {"dummy": True, "center": True, "poly": True, "cell": True, "nofitgrad": True, "vec": 0.12, "hist": 0.2, "biases": ["harmonic", "harmonic", "walls", "linear"]}
+    opts = {"dummy": True, "center": True, "poly": True, "cell": True, "nofitgrad": True, "vec": 0.12, "pairs": 0.08, "hist": 0.2, "biases": ["harmonic", "harmonic", "walls", "linear"]}
     kinds = T1 + T1 + T2
     ncases = 500 if quick else 40000
     cases = load_corpus()
@@ -1159,6 +1275,11 @@ def check(run):
     vplain = dict(plain, vec=1.0)
     for _ in range(4 if quick else 40):
         c = gen_case(r, ["distance"], vplain)
+        if c:
+            cases.append(c)
+    pplain = dict(plain, pairs=1.0, cell=True, biases=["harmonic", "linear"])
+    for _ in range(8 if quick else 80):
+        c = gen_case(r, ["distance"], pplain)
         if c:
             cases.append(c)
     for k in T1 + T2:
@@ -1248,7 +1369,7 @@ def check(run):
     # ---- finite-difference sweep over configurations the model does not cover (a few per kind in the quick tier)
     if True:
         ur = V.rng("C01-unmodelled")
-        ucases = gen_unmodelled(ur, 84 if quick else 6000)
+        ucases = gen_unmodelled(ur, 126 if quick else 6000)
         ures = run_vsim(vsim, ucases)
         for case, res in zip(ucases, ures):
             name = case["name"]
